@@ -109,7 +109,7 @@ def run(ctx):
                 "crates/**/test_data files (+ a thin sample of their non-Cairo sections), hand-written edge cases "
                 "incl. all two-character combinations of the punctuation alphabet, token soups, 1-3 rounds of "
                 "char/token/range-level mutation of corpus windows (incl. NUL, form feed, lone CR, non-ASCII, "
-                "unbalancing, truncation), truncation at every token boundary of sample files, 55 nesting shapes "
+                "unbalancing, truncation), truncation at every token boundary of sample files, 50 nesting shapes "
                 "at depths up to 200. Each input runs through the real Lexer, Parser::parse_file + tree walk + "
                 "Diagnostics::format, the Expr and StatementList file kinds, CairoFormatter::format_to_string and "
                 "format_string, in a child process with a 1 GiB stack, under catch_unwind, with a 40 s watchdog "
